@@ -158,9 +158,16 @@ def run(chk):
         ip = {(r[1], r[2]) for r in imp_tab[0]}
         ep = set(exp_tab[0])
         chk.check(ip == ep, "R5", f"{E} | DeviceInfo pairs agree", f"{E}:{imp_tab[1].lineno}", f"only imported {sorted(ip - ep)}, only exported {sorted(ep - ip)}")
-        di = repo.func(OD, "DeviceInformation.__init__", "C08.R5")
-        attrs = {t.attr for n in own_nodes(di.node) if isinstance(n, (ast.Assign, ast.AnnAssign)) for t in ([n.target] if isinstance(n, ast.AnnAssign) else n.targets)
-                 if isinstance(t, ast.Attribute)}
+        dic = repo.cls(OD, "DeviceInformation", "C08.R5")
+        attrs = set(dic.consts)
+        for n in ast.walk(dic.node):
+            if isinstance(n, ast.AnnAssign) and isinstance(n.target, ast.Name):
+                attrs.add(n.target.id)
+        if "__init__" in dic.methods:
+            di = dic.methods["__init__"]
+            chk.saw(di)
+            attrs |= {t.attr for n in own_nodes(di.node) if isinstance(n, (ast.Assign, ast.AnnAssign)) for t in ([n.target] if isinstance(n, ast.AnnAssign) else n.targets)
+                      if isinstance(t, ast.Attribute)}
         chk.floor("R5", len(imp_tab[0]), 14, "DeviceInfo rows")
         for t, opt, attr in imp_tab[0]:
             want = O.DEVICE_INFO.get(opt)
@@ -464,48 +471,7 @@ def run(chk):
         chk.check(kinds_ == {"num", "str"}, "R10", f"{E}:import_eds | DeviceInfo: numeric and text options both stored", f"{E}:{imp_tab[1].lineno}", f"stores found for {sorted(kinds_)}")
 
     # ------------------------------------------------------------------ R11 implicit array members, copies of the template, indirect types
-    ag = repo.func(OD, "ODArray.__getitem__", "C08.R11")
-    fa = ff_for(chk, ag, "C08.R11")
-    key_p = ag.params[1]
-    mk = [n for n in own_nodes(ag.node) if isinstance(n, ast.Assign) and isinstance(n.value, ast.Call) and (dotted(n.value.func) or "").endswith("ODVariable")]
-    chk.floor("R11", len(mk), 1, "implicit member construction in ODArray.__getitem__")
-    for n in mk:
-        c = n.value
-        vname = src(n.targets[0])
-        chk.check(len(c.args) == 3 and src(c.args[1]) == "self.index" and src(c.args[2]) == key_p, "R11", f"{OD}:ODArray.__getitem__ | implicit member carries the array's index and the requested sub-index",
-                  ag.loc(n), src(c))
-        facts = fa.facts_at(n)
-        guard = conj_of_facts([(e, p) for e, p in facts if key_p in src(e) and "var" not in [x.id for x in ast.walk(e) if isinstance(x, ast.Name)]])
-        verdicts = {}
-        for probe in (-1, 0, 1, 2, 127, 254, 255, 256, 1000):
-            g2 = substitute_src(guard, {f"isinstance({key_p}, int)": True, key_p: probe})
-            verdicts[probe] = folder.try_fold(g2, sc, "?")
-        want = {pr: 1 <= pr <= 255 for pr in verdicts}
-        if "?" in verdicts.values():
-            chk.unk("R11", f"{OD}:ODArray.__getitem__ | sub-index range of implicit members", ag.loc(n), f"guard `{src(guard)}` cannot be evaluated")
-        else:
-            chk.check({k: bool(v) for k, v in verdicts.items()} == want, "R11", f"{OD}:ODArray.__getitem__ | implicit members exist for sub-indices 1..255 only", ag.loc(n),
-                      f"guard `{src(guard)}` accepts {[k for k, v in verdicts.items() if v]}")
-        chk.check(any(src(e) == f"isinstance({key_p}, int)" and p for e, p in facts), "R11", f"{OD}:ODArray.__getitem__ | implicit members for integer keys only", ag.loc(n), "")
-        td = fa.raw_def_at("template", n)
-        chk.check(td is not None and src(td) == "self.subindices[1]", "R11", f"{OD}:ODArray.__getitem__ | template is sub-index 1", ag.loc(n), f"template = {src(td) if td is not None else '?'}")
-        chk.check(any(isinstance(m, ast.Assign) and src(m) == f"{vname}.parent = self" for m in own_nodes(ag.node)), "R11", f"{OD}:ODArray.__getitem__ | implicit member linked to the array", ag.loc(n), "")
-    cl = [l for l in own_nodes(ag.node) if isinstance(l, ast.For) and isinstance(l.iter, (ast.Tuple, ast.List))]
-    chk.floor("R11", len(cl), 1, "template attribute copy loop")
-    NEED = {"data_type", "unit", "factor", "min", "max", "default", "access_type", "description", "value_descriptions", "bit_definitions", "storage_location"}
-    for l in cl:
-        got = set(folder.try_fold(l.iter, sc, None) or ())
-        chk.check(NEED <= got, "R11", f"{OD}:ODArray.__getitem__ | attributes taken from the template", ag.loc(l), f"not copied: {sorted(NEED - got)}")
-        lv = src(l.target)
-        cps_ = [m for m in own_nodes(l) if isinstance(m, ast.Assign) and src(m) == f"var.__dict__[{lv}] = template.__dict__[{lv}]"] + \
-               [m for m in own_nodes(l) if isinstance(m, ast.Expr) and src(m.value) == f"setattr(var, {lv}, getattr(template, {lv}))"]
-        chk.check(len(cps_) == 1, "R11", f"{OD}:ODArray.__getitem__ | copy statement", ag.loc(l), "no `var.<attr> = template.<attr>` in the loop")
-        for m in cps_:
-            g = [(fa.norm(e, subst=False), p) for e, p in fa.facts_at(m) if lv in [x.id for x in ast.walk(e) if isinstance(x, ast.Name)]]
-            chk.check(g in ([], [(f"{lv} in template.__dict__", True)], [(f"{lv} not in template.__dict__", False)]), "R11", f"{OD}:ODArray.__getitem__ | copied whenever the template has it", ag.loc(m), f"{g}")
-            chk.check(any(fa.cfg.dominates(fa.cfg.node_of(k), fa.cfg.node_of(m)) for k in mk), "R11", f"{OD}:ODArray.__getitem__ | copy belongs to the implicit-member branch", ag.loc(m), "")
-    rs = [n for n in own_nodes(ag.node) if isinstance(n, ast.Raise)]
-    chk.check(any(isinstance(r.exc, ast.Call) and dotted(r.exc.func) == "KeyError" for r in rs), "R11", f"{OD}:ODArray.__getitem__ | unknown keys raise KeyError", ag.loc(), "")
+    implicit_members(chk, "R11")
     cpv = repo.func(E, "copy_variable", "C08.R11")
     fcp = ff_for(chk, cpv, "C08.R11")
     rets = [n for n in own_nodes(cpv.node) if isinstance(n, ast.Return)]
@@ -556,6 +522,56 @@ def run(chk):
     # ------------------------------------------------------------------ R12 instances are independent (shared clause)
     from . import shared as _shared
     _shared.isolation(chk, "R12", rels=['canopen/objectdictionary/__init__.py', 'canopen/objectdictionary/eds.py'])
+
+
+def implicit_members(chk, rule: str):
+    """ODArray.__getitem__: members that are not described explicitly exist for sub-indices 1..255 and take data type, access
+    type, limits, ... from sub-index 1 (used by C06 as well: the access checks of such members rest on the inherited access type)."""
+    repo, folder = ctx(chk)
+    sc = Scope(repo.mod(OD, f"{chk.prop}.{rule}"))
+    ag = repo.func(OD, "ODArray.__getitem__", f"{chk.prop}.{rule}")
+    fa = ff_for(chk, ag, f"{chk.prop}.{rule}")
+    key_p = ag.params[1]
+    mk = [n for n in own_nodes(ag.node) if isinstance(n, ast.Assign) and isinstance(n.value, ast.Call) and (dotted(n.value.func) or "").endswith("ODVariable")]
+    chk.floor(rule, len(mk), 1, "implicit member construction in ODArray.__getitem__")
+    for n in mk:
+        c = n.value
+        vname = src(n.targets[0])
+        chk.check(len(c.args) == 3 and src(c.args[1]) == "self.index" and src(c.args[2]) == key_p, rule, f"{OD}:ODArray.__getitem__ | implicit member carries the array's index and the requested sub-index",
+                  ag.loc(n), src(c))
+        facts = fa.facts_at(n)
+        guard = conj_of_facts([(e, p) for e, p in facts if key_p in src(e) and "var" not in [x.id for x in ast.walk(e) if isinstance(x, ast.Name)]])
+        verdicts = {}
+        for probe in (-1, 0, 1, 2, 127, 254, 255, 256, 1000):
+            g2 = substitute_src(guard, {f"isinstance({key_p}, int)": True, key_p: probe})
+            verdicts[probe] = folder.try_fold(g2, sc, "?")
+        want = {pr: 1 <= pr <= 255 for pr in verdicts}
+        if "?" in verdicts.values():
+            chk.unk(rule, f"{OD}:ODArray.__getitem__ | sub-index range of implicit members", ag.loc(n), f"guard `{src(guard)}` cannot be evaluated")
+        else:
+            chk.check({k: bool(v) for k, v in verdicts.items()} == want, rule, f"{OD}:ODArray.__getitem__ | implicit members exist for sub-indices 1..255 only", ag.loc(n),
+                      f"guard `{src(guard)}` accepts {[k for k, v in verdicts.items() if v]}")
+        chk.check(any(src(e) == f"isinstance({key_p}, int)" and p for e, p in facts), rule, f"{OD}:ODArray.__getitem__ | implicit members for integer keys only", ag.loc(n), "")
+        td = fa.raw_def_at("template", n)
+        chk.check(td is not None and src(td) == "self.subindices[1]", rule, f"{OD}:ODArray.__getitem__ | template is sub-index 1", ag.loc(n), f"template = {src(td) if td is not None else '?'}")
+        chk.check(any(isinstance(m, ast.Assign) and src(m) == f"{vname}.parent = self" for m in own_nodes(ag.node)), rule, f"{OD}:ODArray.__getitem__ | implicit member linked to the array", ag.loc(n), "")
+    cl = [l for l in own_nodes(ag.node) if isinstance(l, ast.For) and isinstance(folder.try_fold(l.iter, Scope(ag.mod, ag.cls), None), (tuple, list, frozenset, set))
+          and all(isinstance(x, str) for x in folder.try_fold(l.iter, Scope(ag.mod, ag.cls), None))]
+    chk.floor(rule, len(cl), 1, "template attribute copy loop")
+    NEED = {"data_type", "unit", "factor", "min", "max", "default", "access_type", "description", "value_descriptions", "bit_definitions", "storage_location"}
+    for l in cl:
+        got = set(folder.try_fold(l.iter, Scope(ag.mod, ag.cls), None) or ())
+        chk.check(NEED <= got, rule, f"{OD}:ODArray.__getitem__ | attributes taken from the template", ag.loc(l), f"not copied: {sorted(NEED - got)}")
+        lv = src(l.target)
+        cps_ = [m for m in own_nodes(l) if isinstance(m, ast.Assign) and src(m) == f"var.__dict__[{lv}] = template.__dict__[{lv}]"] + \
+               [m for m in own_nodes(l) if isinstance(m, ast.Expr) and src(m.value) == f"setattr(var, {lv}, getattr(template, {lv}))"]
+        chk.check(len(cps_) == 1, rule, f"{OD}:ODArray.__getitem__ | copy statement", ag.loc(l), "no `var.<attr> = template.<attr>` in the loop")
+        for m in cps_:
+            g = [(fa.norm(e, subst=False), p) for e, p in fa.facts_at(m) if lv in [x.id for x in ast.walk(e) if isinstance(x, ast.Name)]]
+            chk.check(g in ([], [(f"{lv} in template.__dict__", True)], [(f"{lv} not in template.__dict__", False)]), rule, f"{OD}:ODArray.__getitem__ | copied whenever the template has it", ag.loc(m), f"{g}")
+            chk.check(any(fa.cfg.dominates(fa.cfg.node_of(k), fa.cfg.node_of(m)) for k in mk), rule, f"{OD}:ODArray.__getitem__ | copy belongs to the implicit-member branch", ag.loc(m), "")
+    rs = [n for n in own_nodes(ag.node) if isinstance(n, ast.Raise)]
+    chk.check(any(isinstance(r.exc, ast.Call) and dotted(r.exc.func) == "KeyError" for r in rs), rule, f"{OD}:ODArray.__getitem__ | unknown keys raise KeyError", ag.loc(), "")
 
 
 PROBES = ["1A00", "1a00", "00ff", "1A000", "1A0", "x1A00", "1A00 ", "1A00sub1", "1A00Sub1", "1a00subFF", "1A00sub", "1A00subG", "1A00sub1x", "x1A00sub1",
